@@ -78,6 +78,23 @@ func MustDiscard(r network.Reader, n int) {
 	}
 }
 
+// HeadersComplete reports whether buf starts with a complete header block, i.e. whether its
+// header lines are followed by an empty line. The header scanner compacts folded values in
+// place, so it must only run on a complete block: after a retry with more data it would
+// otherwise read the bytes it has already compacted.
+func HeadersComplete(buf []byte) bool {
+	for {
+		n := bytes.IndexByte(buf, '\n')
+		if n < 0 {
+			return false
+		}
+		if n == 0 || (n == 1 && buf[0] == '\r') {
+			return true
+		}
+		buf = buf[n+1:]
+	}
+}
+
 func ReadRawHeaders(dst, buf []byte) ([]byte, int, error) {
 	n := bytes.IndexByte(buf, '\n')
 	if n < 0 {
@@ -511,6 +528,9 @@ func parseTrailer(t *protocol.Trailer, buf []byte) (int, error) {
 			return 0, io.EOF
 		}
 		buf = buf[skip:]
+	}
+	if !HeadersComplete(buf) {
+		return 0, errNeedMore
 	}
 
 	var s HeaderScanner
